@@ -227,6 +227,7 @@ def answer (line : String) : String :=
   | "adm.enc" :: rest =>
     match parseAdmin rest with
     | some r => "ok " ++ hexOfBytes (encAdmin r) ++ " " ++ resStr showAdmin (decodeAdmin (encAdmin r))
+                ++ " ref=" ++ (match r with | .report sr => hexOfBytes sr.refbundle | _ => "-")
     | none => "bad-op"
   | "enc" :: rest =>
     match parseBundle rest with
